@@ -717,6 +717,13 @@ class ExprMixin:
     def contains(self, container: SV, x: SV, st):
         container = self.unbox(container, st)
         t = container.t
+        if isinstance(t, TRef):
+            # x in obj: the class's assumed (pure) __contains__
+            fs = self.reg.funs.get(f"ext:{t.cls}.__contains__")
+            if fs is None or not fs.pure:
+                raise EngineError(f"'in' on an object of class {t.cls} (no pure assumed __contains__)")
+            rs = self.call_contract(fs, [container, x], {}, st, ast.Constant(value=None), params=fs.types.get("__params__"))
+            return self.truthy(rs[-1][1])
         if isinstance(t, TConst):
             items = None
             if container.const is not None:
